@@ -220,6 +220,11 @@ MIRSYM("bounded_search_wellformed", ["C03", "C20"],
        "nns_by_leaf with any budget search_k in 1..=8 returns at most count results, all distinct, stored, inside the candidate filter, ordered nearest first, each carrying normalized_distance(built_distance); never panics or errs on a valid forest",
        _SEARCH_BOUNDS, _lazy("e2_search"), site="Reader::nns_by_leaf", unlimited=False)
 
+MIRSYM("tree_steps_under_faults", ["C10"],
+       "insert_items_in_file / delete_items_in_file with the cancellation callback answering true from its n-th poll on (n symbolic) and the k-th temp-file write failing (k symbolic): never panic, return only Ok, BuildCancelled (and only after the callback answered true) or the injected error; when they return Ok the C01 contract holds",
+       _TREE_BOUNDS + "; cancel point and fault point over the whole u32 range", _lazy("e2_tree", "faults_obligation"),
+       site="BuildOption::cancelled / TmpNodes::put")
+
 PROPS = {}
 
 KANI_NOTE = ("Trusted: Kani/CBMC and rustc MIR semantics; the environment models in /verif/models (heed store, "
@@ -365,6 +370,16 @@ P("C02", "Unlimited-budget search returns the exact nearest neighbours",
   bounds={"forest": "1-2 trees, depth <= 1 (thorough 2), <= 3 (4) items", "count": "0..=6"},
   outside_claim=["numeric accuracy of distances (C11)", "forests beyond the family", "by_item = by_vector header equality"],
   assumptions=["Inv(F, I)"])
+P("C10", "A build that fails or is cancelled reports it and can be rolled back",
+  "symbolic execution of the rustc MIR of the build pipeline's tree steps under a symbolic cancellation point and a symbolic write fault (z3)",
+  "Claimed narrowly: every encoded build step, under every cancellation point and every temp-file fault point, never panics and returns only Ok, the cancellation error (after a true poll) or the injected error. Whole-build atomicity, rollback by abort and temp-file/descriptor hygiene are outside the claim.",
+  level_note="Trusted: rustc MIR, z3, the model table; the cancellation callback is monotone (once true, always true) as the property states. 'Never success over a half-built forest' for the whole build, rollback (LMDB) and temp files (OS) are NOT claimed.",
+  stubs_and_models=["cancel callback = (poll number >= n) with n symbolic", "TmpNodes::put fails at its k-th call with k symbolic"],
+  functions_encoded=["Writer::insert_items_in_file", "Writer::delete_items_in_file", "BuildOption::cancelled"],
+  bounds={"forest": "as C01", "cancel/fault point": "any u32"},
+  outside_claim=["whole-build result under faults", "abort/rollback (LMDB)", "temp files and descriptors (OS)", "LMDB MapFull at arbitrary writes of build()"],
+  assumptions=["monotone cancellation callback"])
+claim("C10")
 claim("C02")
 claim("C04")
 claim("C13")
